@@ -1,3 +1,4 @@
+pub mod c20;
 pub mod common;
 pub mod sem;
 pub mod roundtrip;
@@ -8,11 +9,13 @@ pub mod c04;
 pub mod c05;
 pub mod c06;
 pub mod c07;
+pub mod c10;
 pub mod c11;
 pub mod c12;
 pub mod c13;
 pub mod c16;
 pub mod c17;
+pub mod c18;
 pub mod c19;
 pub mod c08;
 pub mod c09;
@@ -28,6 +31,7 @@ pub fn dispatch(cfg: &Config) -> i32 {
         "C05" => c05::run(cfg),
         "C06" => c06::run(cfg),
         "C07" => c07::run(cfg),
+        "C10" => c10::run(cfg),
         "C11" => c11::run(cfg),
         "C12" => c12::run(cfg),
         "C13" => c13::run(cfg),
@@ -35,7 +39,9 @@ pub fn dispatch(cfg: &Config) -> i32 {
         "C15" => roundtrip::run_c15(cfg),
         "C16" => c16::run(cfg),
         "C17" => c17::run(cfg),
+        "C18" => c18::run(cfg),
         "C19" => c19::run(cfg),
+        "C20" => c20::run(cfg),
         "C08" => c08::run(cfg),
         "C09" => c09::run(cfg),
         other => {
